@@ -17,13 +17,22 @@ Tr == JsonDeserialize(IOEnv.TRACE_FILE)
 VARIABLES tid, l
 tvars == <<now, g, polls, psleep, wsr, wsin, wsw, wsgone, joiners, mon, nreq, tid, l>>
 
+\* runs under pre-emptive schedules (the threaded server, scheduler switching inside blocks)
+\* mark their snapshots "relax": outputs of different tasks may then interleave differently
+\* from the block-to-block order of the specification; they are compared as bags, everything
+\* else (state, per-session event order, deliveries) exactly
+SameBag(a, b) ==
+    /\ Len(a) = Len(b)
+    /\ \A i \in 1..Len(a) : Cardinality({k \in 1..Len(a) : a[k] = a[i]})
+                              = Cardinality({k \in 1..Len(b) : b[k] = a[i]})
+
 Match(st) ==
     /\ now = st.now
     /\ g.ss = st.ss
     /\ g.table = {st.table[i] : i \in 1..Len(st.table)}
     /\ g.ev = st.ev
     /\ g.deliv = st.deliv
-    /\ g.out = st.out
+    /\ IF "relax" \in DOMAIN st THEN SameBag(g.out, st.out) ELSE g.out = st.out
 
 EnvStep(e) == Do([op |-> e.ev] @@ e.a)
 
@@ -45,6 +54,37 @@ Silent ==
     /\ Internal
     /\ UNCHANGED <<tid, l>>
 
+\* pre-emptive schedules of the threaded server: queue.join() re-checks the counter when the
+\* joining thread gets to run; if it runs between the consumer's last task_done() and the
+\* consumer's re-put of the sentinel it returns, otherwise it keeps waiting (finding F6).
+\* Block-to-block the window does not exist; "relax" traces may take it.
+SilentJoinWindow ==
+    /\ l <= Len(Tr[tid]) + 1
+    /\ "relax" \in DOMAIN Tr[tid][1].st
+    /\ \E i \in 1..Len(joiners) : JoinReturnWith(i, TRUE)
+    /\ UNCHANGED <<tid, l>>
+
+\* second window of pre-emptive schedules: close() puts CLOSE, then sets `closed`, then puts
+\* the sentinel.  A pending poll scheduled right after the first put takes the packets up to
+\* CLOSE and finds the session still open: it does not reap it, and the sentinel put
+\* afterwards stays queued.  (Block-to-block the poll sees CLOSE and the sentinel together.)
+SilentCloseWindow ==
+    /\ l <= Len(Tr[tid]) + 1
+    /\ "relax" \in DOMAIN Tr[tid][1].st
+    /\ \E i \in 1..Len(polls) :
+          LET p == polls[i]
+              s == p.s
+              q == g.ss[s].q
+          IN /\ p.kind = "http" /\ g.ss[s].closed
+             /\ Len(q) >= 2 /\ Len(q) - 1 <= MaxPk
+             /\ q[Len(q)] = NIL /\ q[Len(q) - 1] = "CLOSE"
+             /\ \A k \in 1..(Len(q) - 1) : q[k] # NIL
+             /\ LET pk == SubSeq(q, 1, Len(q) - 1)
+                    g1 == [g EXCEPT !.ss[s].q = <<NIL>>, !.ss[s].unf = @ - Len(pk)]
+                IN g' = Resp(Delivered(g1, s, pk, "polling"), p.rid, 200, pk)
+             /\ polls' = RemoveAt(polls, i)
+    /\ UNCHANGED <<now, psleep, wsr, wsin, wsw, wsgone, joiners, mon, nreq, tid, l>>
+
 Finish ==
     /\ l = Len(Tr[tid]) + 1
     /\ Quiescent
@@ -53,7 +93,7 @@ Finish ==
     /\ l' = l + 1
     /\ UNCHANGED <<vars, tid>>
 
-TraceNext == Consume \/ Silent \/ Finish
+TraceNext == Consume \/ Silent \/ SilentJoinWindow \/ SilentCloseWindow \/ Finish
 TraceSpec == TraceInit /\ [][TraceNext]_tvars
 
 \* diagnosis of a rejected trace: print every state reached
